@@ -33,6 +33,9 @@ pub trait Family: 'static {
     fn add(w: &mut Self::W, id: entity::Identifier, c: usize, v: u64) -> Option<bool>;
     fn del(w: &mut Self::W, id: entity::Identifier, c: usize) -> Option<bool>;
     fn write(w: &mut Self::W, id: entity::Identifier, c: usize, v: u64) -> Option<bool>;
+    /// several entry operations through one `world.entry(id)` handle: (kind, component, value) with
+    /// kind 0 = add, 1 = remove, 2 = write through `&mut`, 3 = read; returns the reads (None = absent)
+    fn chain(w: &mut Self::W, id: entity::Identifier, steps: &[(u8, usize, u64)]) -> Option<Option<Vec<Option<String>>>>;
     /// Every entity with all its component identities (through an all-optional query).
     fn rows(w: &mut Self::W) -> Vec<((usize, u64), Vec<Option<u64>>)>;
     fn res(w: &Self::W) -> Vec<u64>;
